@@ -61,6 +61,12 @@ func run(c Case) vh.Result {
 	counterOf := func(l string) int64 { n, _ := lookup(l); return n }
 	refEvents := map[string]int{}
 	changedOrDropped := false
+	type liveRec struct {
+		idx  int
+		rec  *base.LogRecord
+		want []string
+	}
+	var alive []liveRec
 	for ri, in := range c.Recs {
 		// the record's values are substrings of one mutable backing buffer, like records coming from the parser
 		var raw []byte
@@ -139,7 +145,26 @@ func run(c Case) vh.Result {
 				return res
 			}
 		}
-		alloc.Release(rec)
+		if refPass {
+			// the record stays alive while the following ones are transformed (as the records of one read do when the
+			// transforms run among the input's extractions): its values are looked at again at the end
+			want := make([]string, len(tprog.Fields))
+			for i, name := range tprog.Fields {
+				want[i] = model.Fields[name]
+			}
+			alive = append(alive, liveRec{ri, rec, want})
+		} else {
+			alloc.Release(rec)
+		}
+	}
+	for _, l := range alive {
+		for i, name := range tprog.Fields {
+			if got := string(l.rec.Fields[i]); got != l.want[i] {
+				res.Violation = vh.Fail("transform:value-changed-by-later-record", "record %d field %s was %q right after its own transformation and is %q after the following records were transformed (a result that lives in memory owned by the transform)\n%s", l.idx, name, l.want[i], got, describe(c, l.idx))
+				return res
+			}
+		}
+		alloc.Release(l.rec)
 	}
 	res.NonTrivial = changedOrDropped
 	if changedOrDropped {
